@@ -433,9 +433,8 @@ func (l *IPFSLog) Iterator(options *IteratorOptions, output chan<- iface.IPFSLog
 	}
 
 	if options.Amount != nil {
-		if *options.Amount == 0 {
-			return nil
-		}
+		// an amount of 0 selects nothing, the bounds are still checked
+		// and the output channel is still closed below
 		amount = *options.Amount
 	}
 
